@@ -137,6 +137,36 @@ CLAIMS: dict[str, tuple[str, str, str, str]] = {
         "Lean 4 proof (frame invariant over the quote-stack loop) + differential correspondence + DP oracle",
         "§6 C19",
     ),
+    "C09": (
+        "PARTIAL, with FULL theorems for: the T1 obligations punct_tables/terminators_punct/backslash_terminates "
+        "(every ASCII punctuation character is escapable by the escape rule, by unescapeAll and is Markdown "
+        "punctuation, over tables regenerated from the source); unescape_escape (unescapeAll(escapeAll t) = t for "
+        "every text and every entity table: titles, destinations, info strings); escape_punct and "
+        "text/newline_declines_at_backslash (the unit steps of the inline loop on escaped text). MISSING: the "
+        "loop-level theorem (tokenize + fragments_join + text_join of escapeAll t = one text token holding t) and "
+        "the block contexts are decided by the oracle (7 contexts x 4 encodings x 2 presets, expected HTML computed "
+        "from t). Tie: executable inline engine model (text/newline/escape/fragments_join/text_join) vs real "
+        "ParserInline under rule subsets/maxNesting; unescapeAll vs real. Known finding D12 (table cell, "
+        "backslash before pipe).",
+        NOTE + "The html5 entity table is an external parameter.",
+        "Lean 4 proof (table obligations by kernel decision, string round trip by induction) + differential inline engine + templated oracle",
+        "§6 C09",
+    ),
+    "C02": (
+        "PARTIAL, with FULL theorems for: push_levels (the push discipline keeps level = depth, so every stream "
+        "built by pushes is correctly levelled), fragmentsJoin_levels (levels after fragments_join are depths, under "
+        "the forced hypothesis that text tokens have nesting 0), joinToks_flat + joinOne_image_children + "
+        "joinOpt_flat (after text_join no text_special survives and no two text tokens are adjacent, recursively in "
+        "image descriptions), tree_of_balanced (a balanced stream always builds a SyntaxTreeNode; with "
+        "C15.tree_roundtrip it flattens back). MISSING: that delimiter matching is laminar (em/strong/s pairs never "
+        "cross) — processDelimiters is not modelled; and that every block/inline rule pushes balanced segments "
+        "(rule contracts). Both are decided by the oracle: the property's predicate on every stream, recursively, "
+        "incl. a bounded-exhaustive delimiter sweep. Known finding K-C02-1 (parseInline wrapper not flagged block, "
+        "pinned by a test).",
+        NOTE,
+        "Lean 4 proof (level invariant of push, flatness of text_join, tree constructibility) + stream predicate oracle",
+        "§6 C02",
+    ),
 }
 
 PENDING_REASON = "check under construction in this session (Lean model + theorems not yet committed); not claimed until its check exists"
